@@ -1619,7 +1619,8 @@ func (t *tScreen) parseXtermMouse(buf *bytes.Buffer, evs *[]Event) (bool, bool) 
 			}
 			state++
 		case 3:
-			btn = int(b[i])
+			// all three bytes of the report are offset by 32
+			btn = int(b[i]) - 32
 			state++
 		case 4:
 			x = int(b[i]) - 32 - 1
